@@ -33,7 +33,7 @@ AndMask(a, mb) == a - (a % (256 - mb))       \* a & mb for a prefix mask octet m
 NetContains(ip, bits, a) == Len(a) = Len(ip) /\ \A i \in 1..Len(a) : AndMask(a[i], MaskOctet(bits, i)) = AndMask(ip[i], MaskOctet(bits, i))
 
 SysHost(r, name, q) ==
-  LET pat == Norm(r.pat) IN     \* compileHostMatcher normalises the pattern once
+  LET pat == r.pat IN           \* compileHostMatcher has normalised the pattern (Init)
   CASE r.kind = "all"    -> TRUE
     [] r.kind = "exact"  -> name = pat
     [] r.kind = "wild"   -> Deep(name, pat)
@@ -76,7 +76,7 @@ Lookup(q) ==
 
 RuleLists == UNION {[1..n -> 1..Len(RulePool)] : n \in 1..NRules}
 
-Init == /\ \E f \in RuleLists : rules = [i \in DOMAIN f |-> RulePool[f[i]]]
+Init == /\ \E f \in RuleLists : rules = [i \in DOMAIN f |-> [RulePool[f[i]] EXCEPT !.pat = Norm(@)]]
         /\ cache = <<>> /\ nq = 0 /\ hist = <<>>
         /\ mon = MonStep(MonInit, [ev |-> "Rules", scn |-> 0, rules |-> rules, dflt |-> 0], 0)
 
